@@ -12,8 +12,13 @@ use log::{debug, error, info, trace, warn};
 use speedy::{Endianness, Writable};
 use mio_extras::{
   channel::{self as mio_channel, TrySendError},
-  timer::Timer,
 };
+#[cfg(not(rustdds_verif))]
+use mio_extras::timer::Timer;
+// Under the verification cfg the timer is a seam: real mio_extras timer in free-running
+// objects, explorer-driven in simulators (same set_timeout / poll interface).
+#[cfg(rustdds_verif)]
+use crate::verif::vtimer::Timer;
 use mio_06::Token;
 
 use crate::{
